@@ -1569,6 +1569,9 @@ def run(ctx):
     ctx.rule("R-12.7", "every sleeping wait loop observes the external process", floor=6)
     ctx.rule("R-12.8", "frames handed to the engines by the on-the-fly readers do not share arrays (a frame's box and coordinates are its own)", floor=3)
     ctx.rule("R-12.15", "the configuration an engine starts from after a velocity reversal is the phase point itself: _reverse_velocities writes positions, box and identities exactly as read (shared with C19 R-19.5)", floor=5)
+    ctx.rule("R-12.25", "the order stored for a frame of a backward propagation is the order of that frame: calculate_order negates the velocities it finally uses under vel_rev, whether handed in or re-read (shared with C20 R-20.5)", floor=1)
+    from . import c20 as _c20o
+    ctx.attempt(_c20o.r205, ctx, "R-12.25")
     ctx.rule("R-12.23", "in-process engines: the item the loop starts with (the given phase point) is frame 0 for every value of subcycles - the storing test is `counter % subcycles == 0` on the bare item counter starting at 0", floor=2)
     ctx.attempt(frame_cadence, ctx, "R-12.23")
     ctx.rule("R-12.24", "in-process engines: one energy entry per stored frame - every append to the lists handed to update_energies is controlled by the storing test of the frames", floor=2)
@@ -1634,6 +1637,7 @@ def run(ctx):
 
 
 VARIANTS = [
+    B("c12-direction-applied-to-reread-velocities-only", ENGBASE, "            vel = out[1]\n", "            vel = out[1] * -1.0 if system.vel_rev else out[1]\n", "R-12.25", control=True, also=[(ENGBASE, "            system.vel = vel * -1.0 if system.vel_rev else vel", "            system.vel = vel")], why="seeded C12_o"),
     B("c12-turtle-frames-at-the-end-of-each-block", TURTLE, "            if (i) % (self.subcycles) == 0:", "            if (i + 1) % (self.subcycles) == 0:", "R-12.23", control=True, why="seeded C09_n"),
     B("c12-ase-frames-counted-from-one", ASE, "        for i in range(self.subcycles * path.maxlen):", "        for i in range(1, self.subcycles * path.maxlen + 1):", "R-12.23"),
     K("c12-keep-turtle-storing-test-negated", TURTLE, "            if (i) % (self.subcycles) == 0:", "            if not i % self.subcycles != 0:"),
